@@ -120,6 +120,7 @@ fn eval(name: &str, a: &[Value]) -> Value {
                     "title": t.title, "shell_expression": t.shell_expression, "line_number": t.line_number,
                     "exit_code": t.exit_code,
                     "expectations": t.expectations.iter().map(|e| e.original_string()).collect::<Vec<_>>(),
+                    "keep_crlf": t.config.keep_crlf,
                 })).collect::<Vec<_>>()}),
                 Err(e) => json!({"Err": format!("{:#}", e)}),
             }
